@@ -712,7 +712,11 @@ func TestC15Ligatures(t *testing.T) {
 			gid++
 		}
 		f.InstallCMap(m)
-		fixed := rapid.IntRange(0, 5).Draw(t, "fixedPitch") == 0
+		// width patterns: proportional, all equal, all equal except one
+		// glyph (.notdef half of the time), all equal with zero widths mixed
+		// in (zero widths do not count: still fixed pitch)
+		pattern := rapid.SampledFrom([]string{"proportional", "proportional", "proportional", "fixed", "one-differs", "one-differs", "fixed-with-zeros"}).Draw(t, "widthPattern")
+		fixed := pattern == "fixed" || pattern == "fixed-with-zeros"
 		setWidth := func(i int, w int) {
 			switch o := f.Outlines.(type) {
 			case interface{ NumGlyphs() int }:
@@ -723,9 +727,21 @@ func TestC15Ligatures(t *testing.T) {
 		widths := make([]int, f.NumGlyphs())
 		for i := range widths {
 			widths[i] = 500
-			if !fixed {
+			switch pattern {
+			case "proportional":
 				widths[i] = 400 + 17*i
+			case "fixed-with-zeros":
+				if i > 0 && rapid.IntRange(0, 3).Draw(t, "zeroWidth") == 0 {
+					widths[i] = 0
+				}
 			}
+		}
+		if pattern == "one-differs" {
+			odd := 0
+			if rapid.Bool().Draw(t, "oddIsNotNotdef") {
+				odd = rapid.IntRange(1, len(widths)-1).Draw(t, "oddGlyph")
+			}
+			widths[odd] = rapid.SampledFrom([]int{499, 501, 600, 250, 1000}).Draw(t, "oddWidth")
 		}
 		setWidths(f, widths)
 		var buf bytes.Buffer
